@@ -112,6 +112,26 @@ class CallMixin:
             ppos = list(fn.args[2:1 + npos])
             pkw = dict(zip(kwn, fn.args[1 + npos:]))
             return self.call(inner, ppos + list(pos), {**pkw, **kw}, st, fr, site, expr)
+        if op == "Call" and fn.args and fn.args[0].op == "Ext" and fn.args[0].attr == "collections.namedtuple" and \
+                len(fn.args) >= 3:
+            # record type made by collections.namedtuple(name, fields): its instances are the tuple of their fields
+            fl = fn.args[2]
+            fields = None
+            if fl.op in ("List", "Tuple") and all(a.op == "Const" and isinstance(a.attr, str) for a in fl.args):
+                fields = [a.attr for a in fl.args]
+            elif fl.op == "Const" and isinstance(fl.attr, str):
+                fields = fl.attr.replace(",", " ").split()
+            if fields is not None and "**" not in kw and len(pos) + len(kw) == len(fields) and \
+                    not any(p.op == "Starred" for p in pos):
+                vals = dict(zip(fields, pos))
+                vals.update(kw)
+                if set(vals) == set(fields):
+                    name = fn.args[1].attr if fn.args[1].op == "Const" else "namedtuple"
+                    obj = self.mk("Obj", (), (str(name), self.g.serial()), site)
+                    obj.extra = {"cls": None, "ext_bases": ["builtins.tuple"], "tuple_fields": [vals[k] for k in fields]}
+                    for k in fields:
+                        st.heap[(obj.id, k)] = vals[k]
+                    return obj
         if op == "PlotWrap":
             kw2 = {k: v for k, v in kw.items() if k != "plot"}
             if "plot" in kw:
@@ -388,7 +408,27 @@ class CallMixin:
                 self.call(fnode, [obj] + list(pos), kw, st, fr, site)
         else:
             is_dc = any(ast.unparse(d).split("(")[0].endswith("dataclass") for d in ci.node.decorator_list)
-            if is_dc:
+            is_nt = any(b.split(".")[-1] == "NamedTuple" for b in ext)
+            if is_nt:
+                # typing.NamedTuple: an immutable record that is also the tuple of its fields, in declaration order
+                fields = [k for k, s_ in ci.assigns.items() if isinstance(s_, ast.AnnAssign)]
+                vals = {}
+                for i, p in enumerate(pos):
+                    if i < len(fields):
+                        vals[fields[i]] = p
+                for k, v in kw.items():
+                    if k != "**":
+                        vals[k] = v
+                for k in fields:
+                    if k not in vals and ci.assigns[k].value is not None:
+                        vals[k] = self.eval_in_module(ci.module, ci.assigns[k].value)
+                if all(k in vals for k in fields) and "**" not in kw:
+                    for k in fields:
+                        st.heap[(obj.id, k)] = vals[k]
+                    obj.extra["tuple_fields"] = [vals[k] for k in fields]
+                else:
+                    obj.extra["ctor_args"] = (tuple(pos), dict(kw))
+            elif is_dc:
                 fields = [k for k, s in ci.assigns.items() if isinstance(s, ast.AnnAssign)]
                 for i, p in enumerate(pos):
                     if i < len(fields):
@@ -703,9 +743,12 @@ class CallMixin:
             pargs = [fn] + [self.freeze(p, st) for p in P] + [self.freeze(self.res(kw[k], st), st) for k in keep]
             pure = self.mk("Call", pargs, (q, len(P), tuple(keep), serial), site)
             pure.extra = {"cat": cat}
-            new = self.mk("Scatter", (self.res(tgt, st), self.res(kw["where"], st), pure), None, site)
-            self.effect("write", site, st, fr, node=tgt, roots=self.roots(tgt), idx=self.res(kw["where"], st),
-                        value=pure, how="out=,where=", new=new)
+            # exactly  o[m] = ufunc(x)[m]  (the operands broadcast against the output)
+            wh = self.res(kw["where"], st)
+            sel = self.mk("Subscript", (pure, wh), None, site)
+            new = self.mk("Scatter", (self.res(tgt, st), wh, sel), None, site)
+            self.effect("write", site, st, fr, node=tgt, roots=self.roots(tgt), idx=wh,
+                        value=sel, how="out=,where=", new=new)
             st.cur[tgt.id] = new
             return tgt
         if "out" in kw:
